@@ -338,3 +338,28 @@ Lemma buf_bounds w : 1 <= w ->
   2 * ((w - 1) / 6 + 1) + 1 <= buf_size w /\ 2 * (w / 6 + 1) <= buf_size w /\
   (w - 1) / 4 + 2 <= buf_size w /\ w / 4 + 1 <= buf_size w.
 Proof. intros H. unfold buf_size, sizeof. lia. Qed.
+
+(* ---------- the 'c' range test ---------- *)
+Lemma land_high v : 0 <= v -> (Z.land v (Z.lnot 2097151) =? 0) = (v <? 2097152).
+Proof.
+  intros H. rewrite <- Z.ldiff_land. change 2097151 with (Z.ones 21).
+  rewrite Z.ldiff_ones_r by lia. rewrite Z.shiftr_div_pow2, Z.shiftl_mul_pow2 by lia.
+  change (2 ^ 21) with 2097152. lia.
+Qed.
+
+Lemma int_id x : 0 <= x < 2147483648 -> wrap 32 true x = x.
+Proof.
+  intros H. apply wrap_id; [lia|]. unfold in_range, min_int, max_int.
+  change (2 ^ (32 - 1)) with 2147483648. lia.
+Qed.
+
+Lemma small_type w s v : 1 <= w -> sizeof w <= 2 -> in_range w s v -> v < 65536.
+Proof.
+  intros Hw Hs Hr. unfold sizeof in Hs. assert (w <= 16) by lia.
+  pose proof (Z.pow_le_mono_r 2 w 16 ltac:(lia) ltac:(lia)) as P. change (2 ^ 16) with 65536 in P.
+  pose proof (pow2_split w Hw). pose proof (pow2_pos (w - 1) ltac:(lia)).
+  unfold in_range, min_int, max_int in Hr. destruct s; lia.
+Qed.
+
+Lemma mods v : (0 <= v < 256 -> v mod 256 = v) /\ (0 <= v < 2097152 -> v mod 2097152 = v).
+Proof. lia. Qed.
